@@ -792,6 +792,52 @@ def h3_configs(chk):
     return out
 
 
+def unit_validate(name):
+    """Translator validation (every run): the IR of the model's generated source executed by the
+    interpreter in *float* mode (real libm) must reproduce the real compiled DLL on the same buffers."""
+    from vlib.llsym import interp as _interp, kcall as _kcall
+    label = "validate/%s" % name
+    u = Unit(label)
+    try:
+        km = KModel.get(name)
+    except Exception as e:
+        u.error("IR build/parse failed for %s: %r" % (name, e))
+        return u.r
+    info = km.info
+    model = core.build_model(info, dtype="double", platform="dll")
+    u.functions("float-mode execution of %s / %s IR versus the real DLL" % (km.names[0], km.names[1]))
+    for dim in ("1d", "2d"):
+        qv = [np.array([0.011, 0.09, 0.31])] if dim == "1d" else [np.array([0.011, 0.09, -0.21]), np.array([0.02, -0.05, 0.13])]
+        kern = model.make_kernel(qv)
+        pds = pd_params(info, dim)
+        pars = {}
+        if pds:
+            pars = {pds[0] + "_pd": 0.2, pds[0] + "_pd_n": 3}
+        mesh = direct_model.get_mesh(info, pars, dim=dim)
+        cd, values, is_mag = sdetails.make_kernel_args(kern, mesh)
+        mode = 1 if info.radius_effective_modes else 0
+        kern.result[:] = 0.5
+        kern.Fq(cd, values, 1e-5, is_mag, mode)
+        nq = len(qv[0])
+        nres = (2 * nq if (info.have_Fq and dim == "1d") else nq) + 4
+        want = kern.result[:nres].copy()
+        it = _interp.Interp(km.mod, mode="float", max_steps=4000000)
+        regs = _kcall.load_args(it, cd.buffer, values, kern.q_input.q.ravel()[:nq * (2 if dim == "2d" else 1)],
+                                [0.5] * nres)
+        try:
+            res = _kcall.call_kernel(it, km.names[0 if dim == "1d" else 1], nq, 0, int(cd.num_eval), regs, 1e-5, mode)
+        except _interp.StepCap:
+            u.note("validation of %s %s skipped: more than 4e6 interpreted instructions" % (name, dim))
+            continue
+        except Exception as e:
+            u.error("float-mode interpretation of %s %s failed: %r" % (name, dim, e))
+            continue
+        for i in range(nres):
+            u.check_close("%s %s cell %d" % (name, dim, i), float(res[8 * i]), float(want[i]), rtol=1e-9, atol=1e-300)
+    u.r["paths"] += 1
+    return u.r
+
+
 def _prebuild(name):
     from vlib.llsym import build
     from vlib.harness import new_unit
@@ -801,7 +847,7 @@ def _prebuild(name):
 
 def _dispatch(item):
     kind, cfg = item
-    return {"h1": unit_h1, "h2": unit_h2, "h3": unit_h3, "h4": unit_h4}[kind](cfg)
+    return {"h1": unit_h1, "h2": unit_h2, "h3": unit_h3, "h4": unit_h4, "val": unit_validate}[kind](cfg)
 
 
 def run(chk):
@@ -841,16 +887,19 @@ def run(chk):
     items += [("h2", c) for c in h2_configs(chk)]
     items += [("h3", c) for c in h3_configs(chk)]
     items += [("h4", n) for n in c_models()]
+    items += [("val", n) for n in c_models()]
     if getattr(chk, "only", None):
         def label(it):
             k, c = it
             if k == "h4":
                 return "H4/%s" % c
+            if k == "val":
+                return "validate/%s" % c
             return "%s/%s/%s/%s" % (k.upper(), c[0], c[1], c[2])
         items = [it for it in items if chk.only in label(it)]
     # build every IR once, before forking workers
-    pmap(_prebuild, sorted({(c if k == "h4" else c[0]) for k, c in items}))
+    pmap(_prebuild, sorted({(c if k in ("h4", "val") else c[0]) for k, c in items}))
     # long units first
-    order = {"h2": 0, "h3": 1, "h1": 2, "h4": 3}
+    order = {"h2": 0, "h3": 1, "val": 2, "h1": 3, "h4": 4}
     items.sort(key=lambda it: order[it[0]])
     chk.add(pmap(_dispatch, items))
